@@ -126,6 +126,8 @@ PENDING = {   # labels listed in known_findings.d/C41.json (everything else was 
         "ddf.sort_values('a').set_index('t'): the reported divisions differ from the divisions the lowered graph is built with, so some partitions hold index values outs",
     "set_index:divisions-attribute:RuntimeError@_expr.py:__getattr__":
         "rolling(...).sum().join(other, how='right').set_index(col): reading .divisions raises 'Failed to generate metadata for Merge' ('Series' object has no attribute ",
+    "loc:compute:ValueError@dataframe/indexing.py:_partition_of_index_value":
+        "sort_values(presorted).repartition(npartitions=more).loc[a:b]: 'Cannot use loc on DataFrame without known divisions' (rare)",
 }
 
 INDEX_KINDS = ("range", "sorted", "dups", "dups", "unsorted", "datetime", "strings", "float")
